@@ -217,9 +217,11 @@ def build_payload(it, version):
             object_type=enums.ObjectType(it["otype"]), unique_identifiers=list(it["uids"]),
             derivation_method=enums.DerivationMethod(it.get("method", 2)),
             derivation_parameters=cattr.DerivationParameters(
-                cryptographic_parameters=some_params(it.get("cp")), derivation_data=b"\x01\x02",
-                salt=b"salt1234" if it.get("method") in (1, 5) else None,
-                iteration_count=10 if it.get("method") == 1 else None),
+                cryptographic_parameters=some_params(it.get("cp")),
+                derivation_data=None if it.get("ddata_hex") == "" else hexb(it, "ddata_hex", b"\x01\x02"),
+                initialization_vector=hexb(it, "div_hex", None),
+                salt=hexb(it, "salt_hex", b"salt1234" if it.get("method") in (1, 5) else None),
+                iteration_count=it.get("iters", 10 if it.get("method") == 1 else None)),
             template_attribute=build_template(it["tmpl"]))
     if op == "locate":
         return enums.Operation.LOCATE, payloads.LocateRequestPayload(
